@@ -1,11 +1,905 @@
 package main
 
-import "verifharness/internal/vf"
+// C18 — credentials never appear in API responses or logs.
+//
+// Every scenario runs the whole CDC server in its own child process (log level debug; stdout+stderr captured in a
+// per-incarnation file) against its own world. Every credential field of the create request carries a fresh canary
+// (c18_scan.go). The scenario injects ONE failure at an enumerated site of create / start / pause / resume / delete /
+// reload and then drives get / list / position / pause / resume / delete. The oracle is a byte search: no canary, in
+// any encoding, may occur in any HTTP response body or in any log byte (child stdout/stderr, and what was appended
+// to the shared /tmp/cdc_log/cdc.log while the scenario ran). etcd is not searched (the record must keep secrets).
+
+import (
+	"context"
+	"encoding/json"
+	"fmt"
+	"net"
+	"net/http"
+	"os"
+	"path/filepath"
+	"runtime/debug"
+	"sort"
+	"strconv"
+	"strings"
+	"sync"
+	"time"
+
+	"google.golang.org/grpc/codes"
+	"google.golang.org/grpc/status"
+
+	"verifharness/internal/sysboot"
+	"verifharness/internal/vf"
+)
+
+type c18Case struct {
+	Idx      int          `json:"case"`
+	Kind     string       `json:"kind"`           // the injected-failure site (see c18Sites)
+	Target   string       `json:"target"`         // milvus | kafka | both
+	Cred     string       `json:"cred"`           // token | userpass | token+userpass | sasl | all
+	N        int          `json:"n"`              // n-th store call of the faulted operation
+	Special  bool         `json:"special"`        // canaries carry a tail of characters that JSON/URL escaping changes
+	Data     bool         `json:"data"`           // replicate a collection with rows while the task runs
+	HostPort bool         `json:"host_port"`      // deprecated host/port form of the milvus address instead of uri
+	DBColls  bool         `json:"db_collections"` // db_collections instead of collection_infos
+	Secrets  []*c18Secret `json:"secrets"`
+}
+
+// the quick list: one scenario per failure site (N = ordinal of the failing store call where it applies)
+type c18Site struct {
+	Kind   string
+	Target string
+	N      int
+}
+
+var c18Sites = []c18Site{
+	{"happy", "milvus", 0}, {"happy", "milvus", 1}, {"happy", "milvus", 2},
+	{"valid/empty-name", "milvus", 0}, {"valid/long-name", "milvus", 0}, {"valid/neg-buffer", "milvus", 0},
+	{"valid/only-password", "milvus", 0}, {"valid/both-targets", "both", 0}, {"valid/decode-fail", "milvus", 0},
+	{"valid/malformed-json", "milvus", 0}, {"valid/duplicate", "milvus", 0}, {"valid/bad-position", "milvus", 0},
+	{"valid/bad-rpc-channel", "milvus", 0},
+	{"connect/refused", "milvus", 0}, {"connect/rejected", "milvus", 0},
+	{"later/CreateCollection", "milvus", 0}, {"later/DescribeCollection", "milvus", 0}, {"later/ReplicateMessage", "milvus", 0},
+	{"later/Connect", "milvus", 0},
+	{"store/create", "milvus", 1}, {"store/create", "milvus", 2}, {"store/create", "milvus", 3}, {"store/create", "milvus", 4},
+	{"store/create", "milvus", 5}, {"store/create", "milvus", 6}, {"store/create", "milvus", 7},
+	{"store/pause", "milvus", 1}, {"store/pause", "milvus", 2},
+	{"store/resume", "milvus", 1}, {"store/resume", "milvus", 2}, {"store/resume", "milvus", 3},
+	{"store/delete", "milvus", 1}, {"store/delete", "milvus", 3}, {"store/delete", "milvus", 5},
+	{"store/get-list", "milvus", 1},
+	{"reload/unreachable", "milvus", 0}, {"reload/reachable", "milvus", 0}, {"reload/disable-auto-start", "milvus", 0},
+	{"reload/store", "milvus", 1}, {"reload/store", "milvus", 2}, {"reload/store", "milvus", 3}, {"reload/store", "milvus", 4},
+	{"happy", "kafka", 0}, {"valid/empty-topic", "kafka", 0}, {"store/create", "kafka", 2}, {"store/create", "kafka", 4},
+	{"reload/reachable", "kafka", 0}, {"reload/store", "kafka", 2},
+}
+
+// thorough only: the same failure sites on the other target kind and the remaining store-call ordinals
+var c18SitesMore = []c18Site{
+	{"store/create", "kafka", 1}, {"store/create", "kafka", 3}, {"store/create", "kafka", 5}, {"store/create", "kafka", 6},
+	{"store/pause", "kafka", 1}, {"store/pause", "kafka", 2},
+	{"store/resume", "kafka", 1}, {"store/resume", "kafka", 2}, {"store/resume", "kafka", 3},
+	{"store/delete", "kafka", 1}, {"store/delete", "kafka", 2}, {"store/delete", "kafka", 4},
+	{"store/delete", "milvus", 2}, {"store/delete", "milvus", 4},
+	{"store/get-list", "kafka", 1},
+	{"reload/store", "kafka", 1}, {"reload/store", "kafka", 3}, {"reload/store", "kafka", 4}, {"reload/disable-auto-start", "kafka", 0},
+	{"valid/empty-name", "kafka", 0}, {"valid/neg-buffer", "kafka", 0}, {"valid/duplicate", "kafka", 0}, {"valid/malformed-json", "kafka", 0},
+	{"valid/decode-fail", "kafka", 0},
+}
+
+func genC18Cases(seed int64, n int, thorough bool) []*c18Case {
+	var out []*c18Case
+	sites := c18Sites
+	if thorough {
+		sites = append(append([]c18Site{}, c18Sites...), c18SitesMore...)
+	}
+	for i := 0; i < n; i++ {
+		site := sites[i%len(sites)]
+		round := i / len(sites)
+		rnd := vf.Rand(seed, "c18-case", i)
+		c := &c18Case{Idx: i, Kind: site.Kind, Target: site.Target, N: site.N}
+		switch site.Target {
+		case "milvus":
+			// rotate the credential shape along the site list (offset by seed and round): every group of neighbouring
+			// sites that shares a log statement sees every credential field in every run
+			c.Cred = []string{"token", "userpass", "token+userpass"}[(i+int(seed%3+3)+round)%3]
+			if site.Kind == "happy" {
+				c.Cred = []string{"token", "userpass", "token+userpass"}[(site.N+round)%3]
+				c.Data = true
+			}
+			if site.Kind == "valid/only-password" {
+				c.Cred = "userpass"
+			}
+		case "kafka":
+			c.Cred = "sasl"
+			c.Data = site.Kind == "happy"
+		case "both":
+			c.Cred = "all"
+		}
+		c.Special = rnd.Intn(3) == 0
+		c.HostPort = rnd.Intn(4) == 0
+		c.DBColls = rnd.Intn(4) == 0 || site.Kind == "later/Connect"
+		_ = round
+		canary := func(field string) *c18Secret {
+			core := fmt.Sprintf("S3CR3T%016x", rnd.Uint64())
+			s := &c18Secret{Field: field, Core: core, Value: core}
+			if c.Special {
+				s.Value = core + `"</&+=%~ é`
+			}
+			return s
+		}
+		if strings.Contains(c.Cred, "token") || c.Cred == "all" {
+			c.Secrets = append(c.Secrets, canary("milvus.token"))
+		}
+		if strings.Contains(c.Cred, "userpass") || c.Cred == "all" {
+			c.Secrets = append(c.Secrets, canary("milvus.password"))
+		}
+		if c.Cred == "sasl" || c.Cred == "all" {
+			c.Secrets = append(c.Secrets, canary("kafka.sasl.username"), canary("kafka.sasl.password"))
+		}
+		out = append(out, c)
+	}
+	return out
+}
+
+func (c *c18Case) secret(field string) string {
+	for _, s := range c.Secrets {
+		if s.Field == field {
+			return s.Value
+		}
+	}
+	return ""
+}
+
+type c18Result struct {
+	hits         []c18Hit
+	sharedHits   []c18Hit // the same lines found again in /tmp/cdc_log (second sink of the same logger)
+	inconclusive string
+	sites        []string // failure sites confirmed reached (by response / log line / injected store error)
+	getList      int
+	responses    int
+	logBytes     int64
+	sharedBytes  int64
+	restarts     int
+	notes        []string
+	calls        []map[string]any
+	dataFlow     bool
+}
+
+// c18Exec is the state of one running scenario.
+type c18Exec struct {
+	c       *c18Case
+	s       *super
+	res     *c18Result
+	needles []c18Needle
+	marks   map[uint64]int64
+	mu      sync.Mutex
+	// store fault
+	armed    bool
+	failAt   int
+	seen     int
+	injected []string
+}
+
+// db is the source database the task replicates ("later/Connect" uses a second database: the SDK client cache is
+// keyed by (uri, database), so the first collection of a new database makes the target client dial again).
+func (x *c18Exec) db() string {
+	if x.c.Kind == "later/Connect" {
+		return "c18db"
+	}
+	return "default"
+}
+
+func (x *c18Exec) note(f string, a ...any) { x.res.notes = append(x.res.notes, fmt.Sprintf(f, a...)) }
+
+func (x *c18Exec) site(name string) { x.res.sites = append(x.res.sites, name) }
+
+func (x *c18Exec) decide(ev sysboot.StoreEvent) sysboot.StoreDecision {
+	x.mu.Lock()
+	defer x.mu.Unlock()
+	if !x.armed || ev.Phase != "before" {
+		return sysboot.StoreDecision{}
+	}
+	x.seen++
+	if x.seen == x.failAt {
+		x.injected = append(x.injected, fmt.Sprintf("#%d %s %s", x.seen, ev.Op, ev.Kind))
+		return sysboot.StoreDecision{Fail: fmt.Sprintf("injected store failure at call %d", x.seen)}
+	}
+	return sysboot.StoreDecision{}
+}
+
+func (x *c18Exec) arm(n int) {
+	x.mu.Lock()
+	x.armed, x.failAt, x.seen = true, n, 0
+	x.mu.Unlock()
+}
+
+// disarm returns the injected call ("" when the operation made fewer than n store calls) and the calls seen.
+func (x *c18Exec) disarm() (string, int) {
+	x.mu.Lock()
+	defer x.mu.Unlock()
+	x.armed = false
+	inj := ""
+	if len(x.injected) > 0 {
+		inj = x.injected[len(x.injected)-1]
+		x.injected = nil
+	}
+	return inj, x.seen
+}
+
+// call sends one API request and searches the response body.
+func (x *c18Exec) call(t string, data any) sysboot.Response {
+	body, _ := json.Marshal(map[string]any{"request_type": t, "request_data": data})
+	return x.callRaw(t, body)
+}
+
+func (x *c18Exec) callRaw(t string, body []byte) sysboot.Response {
+	x.s.log(sevt{Kind: "api", API: t + " call"})
+	r := x.s.postRaw(http.MethodPost, body)
+	x.s.log(sevt{Kind: "api", API: t + " reply", Code: r.Code, Note: r.Message})
+	x.res.responses++
+	if (t == "get" || t == "list") && len(r.Raw) > 0 {
+		x.res.getList++
+	}
+	msg := r.Message
+	if len(msg) > 300 {
+		msg = msg[:300]
+	}
+	x.res.calls = append(x.res.calls, map[string]any{"type": t, "code": r.Code, "message": msg, "bytes": len(r.Raw)})
+	x.res.hits = append(x.res.hits, scanResponse(t, r.Raw, x.needles)...)
+	return r
+}
+
+// collectShared reads what was appended to /tmp/cdc_log since the last collection (must run while the child lives:
+// another run's clean-up may have unlinked the directory).
+func (x *c18Exec) collectShared() {
+	pid := 0
+	if x.s.child != nil && x.s.childAlive() {
+		pid = x.s.child.Process.Pid
+	}
+	chunks, total := readSharedLog(pid, x.marks, 256<<20)
+	x.res.sharedBytes += total
+	for src, b := range chunks {
+		x.res.sharedHits = append(x.res.sharedHits, scanLog(b, x.needles, "shared log "+src)...)
+	}
+	for ino, p := range sharedLogFiles(pid) {
+		if fi, err := os.Stat(p); err == nil {
+			x.marks[ino] = fi.Size()
+		}
+	}
+}
+
+func (x *c18Exec) restart() error {
+	x.collectShared()
+	x.s.killChild("c18 restart")
+	x.res.restarts++
+	return x.s.startChild(childOpts{DebugLog: true, SrcChannels: 2, PackTimer: 30})
+}
+
+// connectParam builds the milvus_connect_param with the scenario's credentials.
+func (x *c18Exec) milvusParam(uri string) map[string]any {
+	p := map[string]any{"uri": uri, "connect_timeout": 3, "channel_num": 2}
+	if x.c.HostPort {
+		if h, ps, err := net.SplitHostPort(strings.TrimPrefix(uri, "http://")); err == nil {
+			port, _ := strconv.Atoi(ps)
+			delete(p, "uri")
+			p["host"], p["port"] = h, port
+		}
+	}
+	if t := x.c.secret("milvus.token"); t != "" {
+		if x.c.Idx%2 == 0 {
+			t = "svc" + fmt.Sprint(x.c.Idx) + ":" + t // "user:password" shaped token
+		}
+		p["token"] = t
+	}
+	if pw := x.c.secret("milvus.password"); pw != "" {
+		p["username"] = fmt.Sprintf("cdcuser%d", x.c.Idx)
+		p["password"] = pw
+	}
+	return p
+}
+
+func (x *c18Exec) kafkaParam(addr string) map[string]any {
+	return map[string]any{"address": addr, "topic": "cdc_c18", "enable_sasl": true,
+		"sasl": map[string]any{"username": x.c.secret("kafka.sasl.username"), "password": x.c.secret("kafka.sasl.password"),
+			"mechanisms": "PLAIN", "security_protocol": "SASL_PLAINTEXT"}}
+}
+
+func closedPort() string {
+	ln, err := net.Listen("tcp", "127.0.0.1:0")
+	if err != nil {
+		return "127.0.0.1:1"
+	}
+	a := ln.Addr().String()
+	ln.Close()
+	return a
+}
+
+// createReq is the correct create request of this scenario.
+func (x *c18Exec) createReq() map[string]any { return x.createReqFor(x.s.w.Targets[0].URI()) }
+
+func (x *c18Exec) createReqFor(uri string) map[string]any {
+	req := map[string]any{}
+	x.setColls(req, []map[string]any{{"name": "*"}})
+	switch x.c.Target {
+	case "kafka":
+		req["kafka_connect_param"] = x.kafkaParam(closedPort())
+	case "both":
+		req["milvus_connect_param"] = x.milvusParam(uri)
+		req["kafka_connect_param"] = x.kafkaParam(closedPort())
+	default:
+		req["milvus_connect_param"] = x.milvusParam(uri)
+	}
+	return req
+}
+
+// setColls puts the collection list into the request in the scenario's shape.
+func (x *c18Exec) setColls(req map[string]any, infos []map[string]any) {
+	if x.c.DBColls {
+		req["db_collections"] = map[string]any{x.db(): infos}
+	} else {
+		req["collection_infos"] = infos
+	}
+}
+
+func taskIDOf(r sysboot.Response) string {
+	if r.Code != 200 {
+		return ""
+	}
+	id, _ := r.Data["task_id"].(string)
+	return id
+}
+
+func (x *c18Exec) stateOf(id string) (string, string) {
+	r := x.call("get", map[string]any{"task_id": id})
+	t, _ := r.Data["task"].(map[string]any)
+	st, _ := t["state"].(string)
+	rsn, _ := t["reason"].(string)
+	return st, rsn
+}
+
+// look sends get + list.
+func (x *c18Exec) look(id string) {
+	if id != "" {
+		x.call("get", map[string]any{"task_id": id})
+	}
+	x.call("list", map[string]any{})
+}
+
+// followUp drives the rest of the API over a task.
+func (x *c18Exec) followUp(id string) {
+	x.look(id)
+	if id == "" {
+		return
+	}
+	x.call("position", map[string]any{"task_id": id})
+	x.call("pause", map[string]any{"task_id": id})
+	x.look(id)
+	x.call("resume", map[string]any{"task_id": id})
+	x.look(id)
+	x.call("delete", map[string]any{"task_id": id})
+	x.look(id)
+}
+
+var c18PCh = []string{"by-dev-rootcoord-dml_0", "by-dev-rootcoord-dml_1"}
+
+// replicate creates a source collection and sends rows + ticks; returns when the downstream acked a data message
+// (or the watchdog ended the wait: the caller only counts it).
+func (x *c18Exec) replicate(name string, wantAck bool) bool {
+	src := x.s.w.Src
+	coll, err := src.CreateCollection(context.Background(), x.db(), name, c18PCh[:1])
+	if err != nil {
+		x.note("create source collection: %v", err)
+		return false
+	}
+	base := int64(x.c.Idx%1000)*100000 + 1
+	deadline := time.Now().Add(20 * time.Second)
+	sent, rounds := 0, 0
+	for time.Now().Before(deadline) {
+		if sent < 3 {
+			m := src.InsertMsg(coll, 0, coll.Parts[0], base+int64(sent), src.TS(), 2)
+			if _, err := src.Send(c18PCh[0], m); err != nil {
+				x.note("send: %v", err)
+				return false
+			}
+			sent++
+		}
+		_, _ = src.TickAll(c18PCh)
+		time.Sleep(40 * time.Millisecond)
+		if !wantAck && sent >= 3 {
+			rounds++
+			if rounds >= 25 { // no acknowledgement to wait for (kafka / failing downstream): a fixed number of tick rounds
+				return true
+			}
+			continue
+		}
+		for _, e := range x.s.events() {
+			if e.Kind == "ack" {
+				for _, u := range e.UIDs {
+					if u >= base {
+						return true
+					}
+				}
+			}
+		}
+	}
+	return false
+}
+
+// waitPaused polls get until the task is paused (every poll is a searched response); watchdog only ends the wait.
+func (x *c18Exec) waitPaused(id string, tick bool) (string, bool) {
+	deadline := time.Now().Add(40 * time.Second)
+	for time.Now().Before(deadline) && x.s.childAlive() {
+		st, rsn := x.stateOf(id)
+		if st == "Paused" {
+			return rsn, true
+		}
+		if tick {
+			_, _ = x.s.w.Src.TickAll(c18PCh)
+		}
+		time.Sleep(100 * time.Millisecond)
+	}
+	return "", false
+}
+
+func runC18Case(c *c18Case, name string) *c18Result {
+	res := &c18Result{}
+	dir := scratchDir(name)
+	s, err := newSuper(dir, 1)
+	if err != nil {
+		res.inconclusive = "world: " + err.Error()
+		return res
+	}
+	defer s.close()
+	x := &c18Exec{c: c, s: s, res: res, needles: needlesOf(c.Secrets), marks: markSharedLog()}
+	s.setStoreDecide(x.decide)
+	if err := s.startChild(childOpts{DebugLog: true, SrcChannels: 2, PackTimer: 30}); err != nil {
+		res.inconclusive = "child: " + err.Error()
+		return res
+	}
+	x.scenario()
+	// ---- collect the logs of every incarnation ----
+	x.collectShared()
+	s.killChild("c18 done")
+	files, _ := filepath.Glob(filepath.Join(dir, "child-*.log"))
+	sort.Strings(files)
+	for _, f := range files {
+		b, err := os.ReadFile(f)
+		if err != nil {
+			continue
+		}
+		res.logBytes += int64(len(b))
+		res.hits = append(res.hits, scanLog(b, x.needles, filepath.Base(f))...)
+		x.confirmSites(b)
+	}
+	res.hits = append(res.hits, res.sharedHits...)
+	return res
+}
+
+// confirmSites looks for the log line that proves a failure path was executed.
+func (x *c18Exec) confirmSites(log []byte) {
+	t := string(log)
+	for site, marker := range map[string]string{
+		"log:create-failed":           `"fail to create cdc task"`,
+		"log:connect-milvus-failed":   `"fail to connect the milvus"`,
+		"log:connect-kafka-failed":    `"fail to connect the kafka"`,
+		"log:reload-start-failed":     `"fail to start the task"] [task_`,
+		"log:resume-start-failed":     `"fail to start the task"] [error`,
+		"log:new-target-failed":       `"fail to new target"`,
+		"log:pause-task":              `"pause task"`,
+		"log:pause-update-failed":     `"fail to update task reason"`,
+		"log:replicate-msg-failed":    `"fail to handle the replicate message"`,
+		"log:replicate-event-failed":  `"fail to handle replicate event"`,
+		"log:request-receive":         `"request receive"`,
+		"log:store-put-failed":        `"fail to put the task info to etcd"`,
+		"log:store-get-failed":        `"fail to get the task info"`,
+		"log:reload-panic":            `"fail to get all task info"`,
+		"log:delete-task-failed":      `"fail to delete the task`,
+		"log:task-meta-update-failed": `"fail to update the task meta"`,
+		"log:position-get-failed":     `"fail to get the task collection position"`,
+		"log:debug-level":             `] [DEBUG] [`,
+		"log:sdk-client-dial-failed":  `"fail to new the milvus client"`,
+		"log:target-client-failed":    `"fail to get collection info"`,
+	} {
+		if strings.Contains(t, marker) {
+			x.site(site)
+		}
+	}
+}
+
+func (x *c18Exec) scenario() {
+	c := x.c
+	tgt := x.s.w.Targets[0]
+	kind := c.Kind
+	switch {
+	case kind == "happy":
+		r := x.call("create", x.createReq())
+		id := taskIDOf(r)
+		if id == "" {
+			x.note("create failed: %d %s", r.Code, r.Message)
+			if c.Target == "kafka" {
+				x.site("kafka-create-failed")
+			}
+		} else if c.Target == "kafka" {
+			x.site("kafka-create-ok")
+		}
+		if c.Data && id != "" {
+			if x.replicate(fmt.Sprintf("c18_%d", c.Idx), c.Target == "milvus") {
+				x.res.dataFlow = true
+			}
+		}
+		x.followUp(id)
+
+	case strings.HasPrefix(kind, "valid/"):
+		req := x.createReq()
+		var raw []byte
+		want := ""
+		switch strings.TrimPrefix(kind, "valid/") {
+		case "empty-name":
+			x.setColls(req, []map[string]any{{"name": ""}})
+			want = "collection name that is empty"
+		case "long-name":
+			x.setColls(req, []map[string]any{{"name": strings.Repeat("n", 300)}})
+			want = "length exceeds"
+		case "neg-buffer":
+			req["buffer_config"] = map[string]any{"period": -1, "size": 1}
+			want = "cache period is less zero"
+		case "only-password":
+			delete(req["milvus_connect_param"].(map[string]any), "username")
+			want = "only one of the milvus username and password"
+		case "both-targets":
+			want = "milvus and kafka at the same time"
+		case "decode-fail":
+			if mp, ok := req["milvus_connect_param"].(map[string]any); ok {
+				mp["port"] = "not-a-number"
+			} else {
+				req["kafka_connect_param"].(map[string]any)["enable_sasl"] = "not-a-bool"
+			}
+			want = "fail to decode the create request"
+		case "malformed-json":
+			b, _ := json.Marshal(map[string]any{"request_type": "create", "request_data": req})
+			raw = b[:len(b)-2] // cut the closing braces
+			want = "fail to unmarshal the request"
+		case "duplicate":
+			first := x.call("create", req)
+			if taskIDOf(first) == "" {
+				x.note("first create failed: %d %s", first.Code, first.Message)
+			}
+			want = "duplicate"
+		case "bad-position":
+			x.setColls(req, []map[string]any{{"name": "c18_pos", "positions": map[string]string{"by-dev-rootcoord-dml_0_123v0": "!!!not-base64!!!"}}})
+			want = "fail to decode the position data"
+		case "bad-rpc-channel":
+			req["rpc_channel_info"] = map[string]any{"name": "some-other-channel"}
+			want = "the rpc channel is invalid"
+		case "empty-topic":
+			req["kafka_connect_param"].(map[string]any)["topic"] = ""
+			want = "the kafka topic is empty"
+		}
+		var r sysboot.Response
+		if raw != nil {
+			r = x.callRaw("create", raw)
+		} else {
+			r = x.call("create", req)
+		}
+		if r.Code != 200 && strings.Contains(r.Message, want) {
+			x.site(kind)
+		} else {
+			x.note("expected failure %q, got %d %s", want, r.Code, r.Message)
+		}
+		x.look("")
+		x.call("get", map[string]any{"task_id": "no-such-task"})
+		// the same credentials in a correct request afterwards
+		if kind != "valid/duplicate" && c.Target != "both" {
+			id := taskIDOf(x.call("create", x.createReq()))
+			x.look(id)
+			if id != "" {
+				x.call("delete", map[string]any{"task_id": id})
+			}
+		} else {
+			x.followUp(listFirstID(x.call("list", map[string]any{})))
+		}
+
+	case kind == "connect/refused":
+		r := x.call("create", x.createReqFor("http://"+closedPort()))
+		if r.Code != 200 && strings.Contains(r.Message, "fail to connect the milvus") {
+			x.site(kind)
+		} else {
+			x.note("expected connect failure, got %d %s", r.Code, r.Message)
+		}
+		x.look("")
+
+	case kind == "connect/rejected":
+		tgt.FailNext("Connect", 1000, status.Error(codes.Unauthenticated, "auth check failure, please check api key is correct"))
+		r := x.call("create", x.createReq())
+		if r.Code != 200 && strings.Contains(r.Message, "fail to connect the milvus") {
+			x.site(kind)
+		} else {
+			x.note("expected connect failure, got %d %s", r.Code, r.Message)
+		}
+		x.look("")
+		tgt.ClearPlan()
+		id := taskIDOf(x.call("create", x.createReq()))
+		x.followUp(id)
+
+	case strings.HasPrefix(kind, "later/"):
+		method := strings.TrimPrefix(kind, "later/")
+		r := x.call("create", x.createReq())
+		id := taskIDOf(r)
+		if id == "" {
+			x.res.inconclusive = fmt.Sprintf("create failed: %d %s", r.Code, r.Message)
+			return
+		}
+		tgt.FailNext(method, 100000, status.Error(codes.PermissionDenied, "injected downstream failure: permission denied for this api key"))
+		x.replicate(fmt.Sprintf("c18_%d", c.Idx), false)
+		rsn, ok := x.waitPaused(id, true)
+		if ok {
+			x.site(kind)
+			x.note("pause reason: %s", rsn)
+		} else {
+			x.note("task did not pause after %s failures (calls seen: %d)", method, tgt.CallCount(method))
+		}
+		x.look(id)
+		tgt.ClearPlan()
+		x.call("resume", map[string]any{"task_id": id})
+		x.look(id)
+		x.call("delete", map[string]any{"task_id": id})
+		x.look(id)
+
+	case strings.HasPrefix(kind, "store/"):
+		op := strings.TrimPrefix(kind, "store/")
+		id := ""
+		if op != "create" {
+			r := x.call("create", x.createReq())
+			if id = taskIDOf(r); id == "" {
+				x.res.inconclusive = fmt.Sprintf("create failed: %d %s", r.Code, r.Message)
+				return
+			}
+		}
+		if op == "resume" {
+			x.call("pause", map[string]any{"task_id": id})
+		}
+		x.arm(c.N)
+		var r sysboot.Response
+		switch op {
+		case "create":
+			r = x.call("create", x.createReq())
+		case "get-list":
+			r = x.call("get", map[string]any{"task_id": id})
+			x.arm(c.N)
+			x.call("list", map[string]any{})
+			x.arm(c.N)
+			x.call("position", map[string]any{"task_id": id})
+		default:
+			r = x.call(op, map[string]any{"task_id": id})
+		}
+		inj, seen := x.disarm()
+		if inj != "" {
+			x.site(fmt.Sprintf("store/%s/%s", op, strings.SplitN(inj, " ", 2)[1]))
+			x.site(fmt.Sprintf("store/%s#%d", op, c.N))
+			x.note("injected %s -> %d %s", inj, r.Code, r.Message)
+		} else {
+			x.note("%s made only %d store calls (< %d): no failure injected", op, seen, c.N)
+		}
+		if op == "create" {
+			id = taskIDOf(r)
+			x.look(id)
+			if id == "" {
+				id = taskIDOf(x.call("create", x.createReq()))
+			}
+		}
+		x.followUp(id)
+		if op == "delete" {
+			x.call("delete", map[string]any{"task_id": id})
+			x.look(id)
+		}
+
+	case strings.HasPrefix(kind, "reload/"):
+		v := strings.TrimPrefix(kind, "reload/")
+		req := x.createReq()
+		if v == "disable-auto-start" {
+			req["disable_auto_start"] = true
+		}
+		r := x.call("create", req)
+		id := taskIDOf(r)
+		if id == "" {
+			x.res.inconclusive = fmt.Sprintf("create failed: %d %s", r.Code, r.Message)
+			return
+		}
+		x.look(id)
+		switch v {
+		case "unreachable":
+			tgt.Stop()
+		case "store":
+			if c.N >= 3 { // a paused task makes the reload update the task state (two more store calls)
+				x.call("pause", map[string]any{"task_id": id})
+				x.look(id)
+			}
+			x.arm(c.N)
+		}
+		err := x.restart()
+		if v == "store" {
+			inj, seen := x.disarm()
+			if inj != "" {
+				x.site("reload/store/" + strings.SplitN(inj, " ", 2)[1])
+				x.site(fmt.Sprintf("reload/store#%d", c.N))
+				x.note("injected %s during reload; child up: %v", inj, err == nil)
+			} else {
+				x.note("reload made only %d store calls (< %d)", seen, c.N)
+			}
+		}
+		if err != nil {
+			x.note("restart: %v", err)
+			if err2 := x.restart(); err2 != nil {
+				x.res.inconclusive = "second restart: " + err2.Error()
+				return
+			}
+		}
+		st, rsn := x.stateOf(id)
+		x.note("after reload: state=%s reason=%q", st, rsn)
+		switch v {
+		case "unreachable":
+			if st == "Paused" && strings.Contains(rsn, "fail to start task") {
+				x.site(kind)
+			}
+		case "disable-auto-start":
+			if st == "Paused" && strings.Contains(rsn, "disabled auto start") {
+				x.site(kind)
+			}
+		case "reachable":
+			if st == "Running" {
+				x.site(kind + "/" + c.Target)
+			}
+		}
+		x.look(id)
+		if st == "Paused" {
+			rr := x.call("resume", map[string]any{"task_id": id})
+			if v == "unreachable" && rr.Code != 200 {
+				x.site("reload/unreachable/resume-failed")
+			}
+			x.look(id)
+		}
+		x.followUp(id)
+	}
+}
+
+func listFirstID(r sysboot.Response) string {
+	ts, _ := r.Data["tasks"].([]any)
+	for _, t := range ts {
+		if m, ok := t.(map[string]any); ok {
+			if id, _ := m["task_id"].(string); id != "" {
+				return id
+			}
+		}
+	}
+	return ""
+}
 
 func runC18(tier string) *vf.Run {
-	run := vf.NewRun("C18", tier, "exploration")
-	run.Rule = "not built yet"
-	run.Inconclusive("check not built yet")
-	run.Floor("built", 1)
+	run := vf.NewRun("C18", tier, "fault_enumeration")
+	run.Rule = "scenario = one CDC server process (log level debug) + one create request whose every credential field (milvus password / token / username+password, kafka SASL username+password) is a fresh 64-bit canary, " +
+		"ONE failure injected at an enumerated site (request validation after parsing, connect refused / rejected, downstream CreateCollection / DescribeCollection / ReplicateMessage failing until the task pauses, " +
+		"the n-th store call of create / pause / resume / delete / get / list failing, restart with the task persisted and the target unreachable / reachable / the n-th store call of the reload failing), then get, list, position, pause, resume, delete. " +
+		"Non-trivial = the failure site was confirmed reached (its response message, its log line, or the injected store error) or, for fault-free scenarios, a get/list response of a live task was searched; distinct = (site, target kind, credential fields, failing call)."
+	run.Assumptions = []string{
+		"the log is the child's stdout+stderr (zap's stdout sink plus anything libraries print) and the bytes appended to /tmp/cdc_log/cdc.log* during the scenario; both sinks are fed by the same zap core",
+		"canaries are searched verbatim (alphanumeric core, invariant under JSON/URL/zap escaping), as base64 at all three alignments (std and URL alphabets, padding-independent) and as hex; other transformations (hashing, compression, encryption) are not detected",
+		"the downstream fake answers like a Milvus that does not echo credentials in its error messages; no Kafka broker exists (the producer is created lazily, sends fail)",
+		"secrets kept in the etcd task record are tolerated and not searched",
+	}
+	n := run.Pick(len(c18Sites), 300)
+	// floors: every injected-failure site must have been reached at least once
+	for _, st := range []string{
+		"valid/empty-name", "valid/long-name", "valid/neg-buffer", "valid/only-password", "valid/both-targets", "valid/decode-fail",
+		"valid/malformed-json", "valid/duplicate", "valid/bad-position", "valid/bad-rpc-channel", "valid/empty-topic",
+		"connect/refused", "connect/rejected",
+		"later/CreateCollection", "later/DescribeCollection", "later/ReplicateMessage", "later/Connect",
+		"store/create#1", "store/create#2", "store/create#3", "store/create#4", "store/create#5", "store/create#6",
+		"store/pause#1", "store/pause#2", "store/resume#1", "store/resume#2", "store/resume#3",
+		"store/delete#1", "store/delete#3", "store/delete#5", "store/get-list#1",
+		"reload/unreachable", "reload/unreachable/resume-failed", "reload/reachable/milvus", "reload/reachable/kafka", "reload/disable-auto-start",
+		"reload/store#1", "reload/store#2", "reload/store#3", "reload/store#4",
+		"kafka-create-ok",
+		"log:create-failed", "log:connect-milvus-failed", "log:reload-start-failed", "log:resume-start-failed", "log:pause-task",
+		"log:pause-update-failed", "log:replicate-msg-failed", "log:replicate-event-failed", "log:request-receive", "log:reload-panic",
+		"log:store-put-failed", "log:store-get-failed", "log:delete-task-failed", "log:task-meta-update-failed", "log:position-get-failed", "log:debug-level",
+		"log:sdk-client-dial-failed", "log:target-client-failed",
+	} {
+		run.Floor("site_"+st, 1)
+	}
+	if run.Thorough() {
+		for _, st := range []string{"store/pause#1", "store/pause#2", "store/resume#3", "store/delete#2", "store/delete#4", "reload/store#3", "reload/store#4"} {
+			run.Floor("site_"+st, 2) // reached on both target kinds
+		}
+	}
+	run.Floor("target_kinds", 3)
+	run.Floor("secret_fields", 4)
+	run.Floor("restart_scenarios", run.Pick(3, 15))
+	run.Floor("getlist_responses_scanned", run.Pick(150, 900))
+	run.Floor("log_kb_scanned", run.Pick(500, 3000))
+	run.Floor("scenarios_with_replicated_rows", run.Pick(1, 6))
+	cases := genC18Cases(run.Seed, n, run.Thorough())
+	if *fCase >= 0 {
+		for _, c := range cases {
+			if c.Idx == *fCase {
+				cases = []*c18Case{c}
+			}
+		}
+	}
+	var mu sync.Mutex
+	parallel(len(cases), 8, func(i int) {
+		c := cases[i]
+		defer func() {
+			if p := recover(); p != nil { // a bug of this check must not look like a verdict (a Go panic exits with 2)
+				fmt.Printf("C18 harness panic in case %d (%s/%s): %v\n%s\n", c.Idx, c.Kind, c.Target, p, debug.Stack())
+				os.Exit(70)
+			}
+		}()
+		res := runC18Case(c, fmt.Sprintf("c18-%d", c.Idx))
+		mu.Lock()
+		defer mu.Unlock()
+		run.Eval(1)
+		fields := []string{}
+		for _, s := range c.Secrets {
+			fields = append(fields, s.Field)
+			run.Distinct("secret_fields", s.Field)
+		}
+		if res.inconclusive != "" {
+			run.Inconclusive(fmt.Sprintf("case %d (%s/%s): %s", c.Idx, c.Kind, c.Target, res.inconclusive))
+		}
+		for _, st := range res.sites {
+			run.Distinct("sites", st)
+			run.Count("site_"+st, 1)
+		}
+		reached := len(res.sites) > 0 && (c.Kind == "happy" || !onlyLogSites(res.sites))
+		if c.Kind == "happy" && res.getList >= 4 {
+			reached = true
+		}
+		if reached {
+			run.Nontrivial(fmt.Sprintf("%s|%s|%s|n=%d|special=%v", c.Kind, c.Target, strings.Join(fields, "+"), c.N, c.Special))
+		}
+		run.Distinct("target_kinds", c.Target)
+		run.Count("getlist_responses_scanned", res.getList)
+		run.Count("responses_scanned", res.responses)
+		run.Count("log_kb_scanned", int(res.logBytes/1024))
+		run.Count("shared_log_kb_scanned", int(res.sharedBytes/1024))
+		run.Count("restarts", res.restarts)
+		if res.dataFlow {
+			run.Count("scenarios_with_replicated_rows", 1)
+		}
+		if strings.HasPrefix(c.Kind, "reload/") && res.restarts > 0 {
+			run.Count("restart_scenarios", 1)
+		}
+		// violations: one per (key, scenario)
+		byKey := map[string][]c18Hit{}
+		var keys []string
+		for _, h := range res.hits {
+			k := h.key()
+			if _, ok := byKey[k]; !ok {
+				keys = append(keys, k)
+			}
+			byKey[k] = append(byKey[k], h)
+		}
+		sort.Strings(keys)
+		for _, k := range keys {
+			hs := byKey[k]
+			h := hs[0]
+			desc := fmt.Sprintf("case %d %s/%s n=%d: %s (%s) in %s [%s] x%d: %s",
+				c.Idx, c.Kind, c.Target, c.N, h.Secret.Field, h.Form, h.Where, h.Source, len(hs), h.Line)
+			run.Violate(k, desc, map[string]any{"case": c, "hit": map[string]any{"field": h.Secret.Field, "form": h.Form, "where": h.Where, "site": h.Site, "source": h.Source, "line": h.Line},
+				"api_calls": res.calls, "notes": res.notes, "sites_reached": res.sites})
+		}
+		run.Sample(map[string]any{"case": c.Idx, "kind": c.Kind, "target": c.Target, "cred": c.Cred, "n": c.N, "sites_reached": res.sites, "notes": res.notes,
+			"get_list_responses": res.getList, "log_bytes": res.logBytes, "leaks": keys})
+		fmt.Printf("C18 case %d %s/%s cred=%s n=%d: sites=%v getlist=%d log=%dB shared=%dB leaks=%d notes=%v inconclusive=%q\n",
+			c.Idx, c.Kind, c.Target, c.Cred, c.N, res.sites, res.getList, res.logBytes, res.sharedBytes, len(keys), res.notes, res.inconclusive)
+	})
 	return run
+}
+
+func onlyLogSites(sites []string) bool {
+	for _, s := range sites {
+		if !strings.HasPrefix(s, "log:") {
+			return false
+		}
+	}
+	return true
 }
